@@ -385,7 +385,8 @@ def replay_chooser(trace):
         except StopIteration:
             n = cur if cur in enabled else enabled[0]
         if n not in enabled:
-            raise Deadlock('replayed schedule names %r which is not enabled (%r) at step %d' % (n, enabled, step))
+            # the code under test has changed since the schedule was recorded: replay is best effort from here on
+            n = cur if cur in enabled else enabled[0]
         return n
 
     return choose
